@@ -20,10 +20,11 @@ def asPair (j : Json) : R (Nat × Nat) := do
 def asS2 (j : Json) : R S2 := do
   let a ← j.getArr?
   match a.toList with
-  | [x, y, r, p] => pure ⟨← x.getNat?, ← y.getNat?, ← asRat r, ← asRat p⟩
-  | _ => throw "S2: expected [a, b, r, phi]"
+  | [x, y, r, p] => pure ⟨← x.getNat?, ← y.getNat?, ← asRat r, ← asRat p, false⟩
+  | [x, y, r, p, d] => pure ⟨← x.getNat?, ← y.getNat?, ← asRat r, ← asRat p, ← d.getBool?⟩
+  | _ => throw "S2: expected [a, b, r, phi(, dagger)]"
 
-def jS2 (c : S2) : Json := jarr [jnat c.a, jnat c.b, jrat c.r, jrat c.phi]
+def jS2 (c : S2) : Json := jarr [jnat c.a, jnat c.b, jrat c.r, jrat c.phi, Json.bool c.dag]
 
 def asTCmd (j : Json) : R TCmd := do
   let a ← j.getArr?
@@ -62,8 +63,50 @@ def asGp (j : Json) : R (Option (List (String × List Range))) := do
     | _ => throw "gp entry: expected [name, ranges]"
   pure (some l)
 
+def asRatMat (j : Json) : R (List (List Rat)) := do
+  let a ← j.getArr?
+  a.toList.mapM asRatList
+
+def asCq (j : Json) : R Cq := do
+  let a ← j.getArr?
+  match a.toList with
+  | [x, y] => pure (← asRat x, ← asRat y)
+  | _ => throw "complex: expected [re, im]"
+
+def asCM (j : Json) : R CM := do
+  let a ← j.getArr?
+  a.toList.mapM fun r => do
+    let es ← r.getArr?
+    es.toList.mapM asCq
+
+def xerrStr : XErr → String
+  | .notInterferometer => "not-interferometer" | .mix => "mix" | .notIdentical => "not-identical"
+
 def handler (op : String) (j : Json) : Option (R Json) :=
   match op with
+  | "hw.close" => some do
+    let ps ← (← getArr j "pairs").mapM fun e => do
+      let a ← e.getArr?
+      match a.toList with
+      | [x, y] => pure (← asCq x, ← asCq y)
+      | _ => throw "pair expected"
+    pure <| jarr (ps.map fun ab => Json.bool (closeC ab.1 ab.2))
+  | "hw.expand" => some do
+    let S ← asRatMat (← j.getObjVal? "S")
+    let out := expandS S (← getNatList j "modes") (← getNat j "N")
+    pure <| jarr (out.map fun r => jarr (r.map jrat))
+  | "hw.xunitaryCheck" => some do
+    let S ← asRatMat (← j.getObjVal? "S")
+    match xunitaryCheck (← getNat j "half") S (← getNatList j "used") with
+    | .ok _ => pure (Json.str "ok")
+    | .error e => pure (Json.str (xerrStr e))
+  | "hw.xcovCheck" => some do
+    let A ← asCM (← j.getObjVal? "A")
+    match xcovCheck (← getNat j "half") A with
+    | .ok _ => pure (Json.str "ok")
+    | .error e => pure (Json.str (xerrStr e))
+  | "hw.xcovSqueezers" => some do
+    pure <| jarr ((xcovSqueezers (← getNat j "half")).map fun t => natList [t.1, t.2.1, t.2.2])
   | "hw.ranges" => some do
     let vals ← asRatList (← j.getObjVal? "values")
     match mkRanges (← asRanges (← j.getObjVal? "ranges")) with
